@@ -25,7 +25,17 @@ func main() {
 	replay := flag.String("replay", "", "report file to re-derive")
 	list := flag.Bool("list", false, "list implemented properties")
 	absFn := flag.String("abs", "", "debug: abstractly interpret pkg:Func with symbolic arguments and print every path")
+	dumpPinned := flag.Bool("dump-pinned", false, "print internal/core/pinned_data.go for the tree at -repo (the reference vocabulary of identifiers)")
 	flag.Parse()
+	if *dumpPinned {
+		P, err := core.Load(core.Config{Dir: *repo})
+		if err != nil {
+			fmt.Println(err)
+			os.Exit(2)
+		}
+		fmt.Print(core.DumpPinned(P))
+		return
+	}
 	if *absFn != "" {
 		debugAbs(*repo, *absFn)
 		return
@@ -143,6 +153,9 @@ func run(pr *rules.Property, tier, repo, root, onlyRule, onlyKey string) (code i
 			continue
 		}
 		r.Configs = append(r.Configs, fmt.Sprintf("%s: %d packages, %d functions", cfg.String(), len(p.Pkgs), len(p.AllFuncs)))
+		if len(p.RoleMoves) > 0 {
+			r.Extra["roles_moved"] = p.RoleMoves
+		}
 		c := &rules.Ctx{P: p, R: r, Tier: tier}
 		if i > 0 {
 			// additional configurations: same rules, obligations keyed with the configuration
@@ -155,6 +168,13 @@ func run(pr *rules.Property, tier, repo, root, onlyRule, onlyKey string) (code i
 			continue
 		}
 		pr.Run(c)
+	}
+	// identifiers of this tree that were aligned with the reference vocabulary (renames seen through)
+	if ren := core.PinnedRenames(); len(ren) > 0 {
+		if len(ren) > 60 {
+			ren = append(ren[:60], fmt.Sprintf("... %d more", len(ren)-60))
+		}
+		r.Extra["identifiers_aligned"] = ren
 	}
 	if tier == "thorough" && onlyRule == "" && os.Getenv("ORYX_NO_SEEDED") == "" {
 		selfValidate(pr.ID, repo, root, r)
